@@ -261,28 +261,6 @@ harness!(c01_args_create_puzzle_announcement, 40, { one_msg(62, ErrorCode::Inval
 
 // ---- single integer argument ------------------------------------------------------------------
 
-/// integer menu: one atom per length 0..=10 with symbolic content, plus a pair
-fn int_menu(a: &mut Allocator) -> ([NodePtr; 12], [Ent; 12]) {
-    let mut nodes = [NodePtr::NIL; 12];
-    let mut ents = [ent_atom(0); 12];
-    let content: [u8; 10] = kani::any();
-    let mut l = 0;
-    while l <= 10 {
-        let mut b = [0u8; 10];
-        let mut i = 0;
-        while i < l {
-            b[i] = content[i];
-            i += 1;
-        }
-        nodes[l] = a.new_atom(&b[..l]).unwrap();
-        ents[l] = Ent { is_pair: false, len: l, bytes: b };
-        l += 1;
-    }
-    nodes[11] = a.new_pair(nodes[1], NodePtr::NIL).unwrap();
-    ents[11] = Ent { is_pair: true, len: 0, bytes: [0; 10] };
-    (nodes, ents)
-}
-
 #[derive(Clone, Copy, PartialEq, Eq)]
 pub enum IntRule {
     /// positive overflow / negative => what
@@ -291,24 +269,38 @@ pub enum IntRule {
     SkipRel,
 }
 
-/// expected result of decoding one integer condition
-fn one_int(op: u16, width: usize, code: ErrorCode, kind: u8, on_pos: IntRule, on_neg: IntRule) {
+/// Decoding of one integer condition. First argument: a heap-backed atom of exactly L bytes
+/// with symbolic content (L = 99: a pair); argument count 0..=2 and terminator symbolic.
+/// (Atom lengths are enumerated per instance: a symbolic choice between atoms of different
+/// lengths is a symbolic length for CBMC -- measured > 20 min / 7 GB.)
+fn one_int<const L: usize>(op: u16, width: usize, code: ErrorCode, kind: u8, on_pos: IntRule, on_neg: IntRule) {
     let mut a = Allocator::new();
-    let (menu, ents) = int_menu(&mut a);
-    let args = build_args(&mut a, &menu, 2);
+    let is_pair = L == 99;
+    let (n0, b0) = if L == 99 {
+        let x = a.new_atom(&[1]).unwrap();
+        (a.new_pair(x, NodePtr::NIL).unwrap(), [0u8; L])
+    } else {
+        sym_heap_atom::<L>(&mut a)
+    };
+    // list: up to 2 arguments, second one irrelevant
+    let extra = a.new_atom(&[0x42]).unwrap();
+    let n: usize = kani::any();
+    kani::assume(n <= 2);
+    let term_nil: bool = kani::any();
+    let term = if term_nil { NodePtr::NIL } else { extra };
+    let l2 = a.new_pair(extra, term).unwrap();
+    let l1 = a.new_pair(n0, if n >= 2 { l2 } else { term }).unwrap();
+    let list = if n >= 1 { l1 } else { term };
     let fl: u32 = kani::any();
-    let r = parse_args(&a, args.list, op, ConsensusFlags::from_bits_retain(fl));
+    let r = parse_args(&a, list, op, ConsensusFlags::from_bits_retain(fl));
     let strict = fl & STRICT != 0;
-    let e0 = ents[args.pick[0]];
-    // classification of the first argument
-    let class = if e0.is_pair { UintClass::Invalid } else { classify_uint(&e0.bytes[..e0.len], width) };
-    // outcome: 0 = error(code2), 1 = value, 2 = Skip, 3 = SkipRelative
+    let class = if is_pair { UintClass::Invalid } else { classify_uint(&b0, width) };
     let mut want_err: Option<ErrorCode> = None;
     let mut want_kind = kind;
     let mut val: u64 = 0;
-    if args.n == 0 {
+    if n == 0 {
         want_err = Some(ErrorCode::InvalidCondition);
-    } else if strict && !strict_ok(&args, 1) {
+    } else if strict && !(n == 1 && term_nil) {
         want_err = Some(ErrorCode::InvalidCondition);
     } else {
         match class {
@@ -338,27 +330,51 @@ fn one_int(op: u16, width: usize, code: ErrorCode, kind: u8, on_pos: IntRule, on
         }
         Err(e) => assert!(Some(e.error_code()) == want_err, "rejection code as the rules prescribe"),
     }
-    kani::cover!(want_err.is_none() && want_kind == kind && e0.len == width + 1);
-    kani::cover!(want_err.is_none() && want_kind == kind && e0.len == 0);
-    kani::cover!(matches!(class, UintClass::Pos) && args.n > 0);
-    kani::cover!(matches!(class, UintClass::Neg) && args.n > 0);
-    kani::cover!(want_err == Some(code) && matches!(class, UintClass::Invalid) && !e0.is_pair);
+    // every class possible at this length is reached
+    kani::cover!(want_err.is_none() && want_kind == kind || L > width + 1);
+    kani::cover!(matches!(class, UintClass::Pos) && n > 0 || L <= width || L == 99);
+    kani::cover!(matches!(class, UintClass::Neg) && n > 0 || L == 0 || L == 99);
+    kani::cover!(want_err == Some(code) && matches!(class, UintClass::Invalid) || L == 0);
+    kani::cover!(want_err == Some(ErrorCode::InvalidCondition) && n == 2);
     std::mem::forget(a);
 }
 
 use IntRule::*;
-harness!(c01_args_reserve_fee, 40, { one_int(52, 8, ErrorCode::ReserveFeeConditionFailed, K_RESERVE_FEE, Fail, Fail) });
-harness!(c01_args_assert_my_amount, 40, { one_int(73, 8, ErrorCode::AssertMyAmountFailed, K_MY_AMOUNT, Fail, Fail) });
-harness!(c01_args_assert_my_birth_seconds, 40, { one_int(74, 8, ErrorCode::AssertMyBirthSecondsFailed, K_MY_BIRTH_SECONDS, Fail, Fail) });
-harness!(c01_args_assert_my_birth_height, 40, { one_int(75, 4, ErrorCode::AssertMyBirthHeightFailed, K_MY_BIRTH_HEIGHT, Fail, Fail) });
-harness!(c01_args_assert_seconds_relative, 40, { one_int(80, 8, ErrorCode::AssertSecondsRelativeFailed, K_SECONDS_RELATIVE, Fail, SkipRel) });
-harness!(c01_args_assert_seconds_absolute, 40, { one_int(81, 8, ErrorCode::AssertSecondsAbsoluteFailed, K_SECONDS_ABSOLUTE, Fail, Skip) });
-harness!(c01_args_assert_height_relative, 40, { one_int(82, 4, ErrorCode::AssertHeightRelativeFailed, K_HEIGHT_RELATIVE, Fail, SkipRel) });
-harness!(c01_args_assert_height_absolute, 40, { one_int(83, 4, ErrorCode::AssertHeightAbsoluteFailed, K_HEIGHT_ABSOLUTE, Fail, Skip) });
-harness!(c01_args_assert_before_seconds_relative, 40, { one_int(84, 8, ErrorCode::AssertBeforeSecondsRelativeFailed, K_BEFORE_SECONDS_RELATIVE, SkipRel, Fail) });
-harness!(c01_args_assert_before_seconds_absolute, 40, { one_int(85, 8, ErrorCode::AssertBeforeSecondsAbsoluteFailed, K_BEFORE_SECONDS_ABSOLUTE, Skip, Fail) });
-harness!(c01_args_assert_before_height_relative, 40, { one_int(86, 4, ErrorCode::AssertBeforeHeightRelativeFailed, K_BEFORE_HEIGHT_RELATIVE, SkipRel, Fail) });
-harness!(c01_args_assert_before_height_absolute, 40, { one_int(87, 4, ErrorCode::AssertBeforeHeightAbsoluteFailed, K_BEFORE_HEIGHT_ABSOLUTE, Skip, Fail) });
+/// per opcode: quick instance at L = width + 1 (reaches Ok, positive overflow, negative,
+/// non-canonical), thorough instances at L = 0, width, 10 and a pair
+macro_rules! int_insts {
+    ($q:ident, $t0:ident, $tw:ident, $t10:ident, $tp:ident, $op:expr, $w:expr, $wp1:expr, $code:expr, $kind:expr, $pos:expr, $neg:expr) => {
+        harness!($q, 40, { one_int::<$wp1>($op, $w, $code, $kind, $pos, $neg) });
+        harness!($t0, 40, { one_int::<0>($op, $w, $code, $kind, $pos, $neg) });
+        harness!($tw, 40, { one_int::<$w>($op, $w, $code, $kind, $pos, $neg) });
+        harness!($t10, 40, { one_int::<10>($op, $w, $code, $kind, $pos, $neg) });
+        harness!($tp, 40, { one_int::<99>($op, $w, $code, $kind, $pos, $neg) });
+    };
+}
+int_insts!(c01_args_reserve_fee, c01t_args_reserve_fee_l0, c01t_args_reserve_fee_lw, c01t_args_reserve_fee_l10, c01t_args_reserve_fee_pair,
+    52, 8, 9, ErrorCode::ReserveFeeConditionFailed, K_RESERVE_FEE, Fail, Fail);
+int_insts!(c01_args_assert_my_amount, c01t_args_assert_my_amount_l0, c01t_args_assert_my_amount_lw, c01t_args_assert_my_amount_l10, c01t_args_assert_my_amount_pair,
+    73, 8, 9, ErrorCode::AssertMyAmountFailed, K_MY_AMOUNT, Fail, Fail);
+int_insts!(c01_args_assert_my_birth_seconds, c01t_args_assert_my_birth_seconds_l0, c01t_args_assert_my_birth_seconds_lw, c01t_args_assert_my_birth_seconds_l10, c01t_args_assert_my_birth_seconds_pair,
+    74, 8, 9, ErrorCode::AssertMyBirthSecondsFailed, K_MY_BIRTH_SECONDS, Fail, Fail);
+int_insts!(c01_args_assert_my_birth_height, c01t_args_assert_my_birth_height_l0, c01t_args_assert_my_birth_height_lw, c01t_args_assert_my_birth_height_l10, c01t_args_assert_my_birth_height_pair,
+    75, 4, 5, ErrorCode::AssertMyBirthHeightFailed, K_MY_BIRTH_HEIGHT, Fail, Fail);
+int_insts!(c01_args_assert_seconds_relative, c01t_args_assert_seconds_relative_l0, c01t_args_assert_seconds_relative_lw, c01t_args_assert_seconds_relative_l10, c01t_args_assert_seconds_relative_pair,
+    80, 8, 9, ErrorCode::AssertSecondsRelativeFailed, K_SECONDS_RELATIVE, Fail, SkipRel);
+int_insts!(c01_args_assert_seconds_absolute, c01t_args_assert_seconds_absolute_l0, c01t_args_assert_seconds_absolute_lw, c01t_args_assert_seconds_absolute_l10, c01t_args_assert_seconds_absolute_pair,
+    81, 8, 9, ErrorCode::AssertSecondsAbsoluteFailed, K_SECONDS_ABSOLUTE, Fail, Skip);
+int_insts!(c01_args_assert_height_relative, c01t_args_assert_height_relative_l0, c01t_args_assert_height_relative_lw, c01t_args_assert_height_relative_l10, c01t_args_assert_height_relative_pair,
+    82, 4, 5, ErrorCode::AssertHeightRelativeFailed, K_HEIGHT_RELATIVE, Fail, SkipRel);
+int_insts!(c01_args_assert_height_absolute, c01t_args_assert_height_absolute_l0, c01t_args_assert_height_absolute_lw, c01t_args_assert_height_absolute_l10, c01t_args_assert_height_absolute_pair,
+    83, 4, 5, ErrorCode::AssertHeightAbsoluteFailed, K_HEIGHT_ABSOLUTE, Fail, Skip);
+int_insts!(c01_args_assert_before_seconds_relative, c01t_args_assert_before_seconds_relative_l0, c01t_args_assert_before_seconds_relative_lw, c01t_args_assert_before_seconds_relative_l10, c01t_args_assert_before_seconds_relative_pair,
+    84, 8, 9, ErrorCode::AssertBeforeSecondsRelativeFailed, K_BEFORE_SECONDS_RELATIVE, SkipRel, Fail);
+int_insts!(c01_args_assert_before_seconds_absolute, c01t_args_assert_before_seconds_absolute_l0, c01t_args_assert_before_seconds_absolute_lw, c01t_args_assert_before_seconds_absolute_l10, c01t_args_assert_before_seconds_absolute_pair,
+    85, 8, 9, ErrorCode::AssertBeforeSecondsAbsoluteFailed, K_BEFORE_SECONDS_ABSOLUTE, Skip, Fail);
+int_insts!(c01_args_assert_before_height_relative, c01t_args_assert_before_height_relative_l0, c01t_args_assert_before_height_relative_lw, c01t_args_assert_before_height_relative_l10, c01t_args_assert_before_height_relative_pair,
+    86, 4, 5, ErrorCode::AssertBeforeHeightRelativeFailed, K_BEFORE_HEIGHT_RELATIVE, SkipRel, Fail);
+int_insts!(c01_args_assert_before_height_absolute, c01t_args_assert_before_height_absolute_l0, c01t_args_assert_before_height_absolute_lw, c01t_args_assert_before_height_absolute_l10, c01t_args_assert_before_height_absolute_pair,
+    87, 4, 5, ErrorCode::AssertBeforeHeightAbsoluteFailed, K_BEFORE_HEIGHT_ABSOLUTE, Skip, Fail);
 
 // ---- AGG_SIG_*: public key (48 bytes) and message (<= 1024 bytes) ---------------------------------
 
@@ -449,7 +465,7 @@ fn create_coin_args<const LA: usize>() {
     let ph_ok: bool = kani::any();
     let ph = if ph_ok { ph32 } else { ph31 };
     // second: amount atom of LA bytes
-    let (amt, amt_b) = sym_atom::<LA>(&mut a);
+    let (amt, amt_b) = sym_heap_atom::<LA>(&mut a);
     // third (optional): memo
     let h0 = NodePtr::NIL;
     let hb: [u8; 32] = kani::any();
@@ -570,18 +586,23 @@ harness!(c01_args_create_coin_short, 40, {
 
 // ---- SOFTFORK, 2-byte opcodes, ASSERT_EPHEMERAL, REMARK ------------------------------------------------
 
-harness!(c01_args_softfork, 40, {
+fn softfork_args<const L: usize>() {
     let mut a = Allocator::new();
-    let (menu, ents) = int_menu(&mut a);
-    let args = build_args(&mut a, &menu, 2);
+    let (n0, b0) = sym_heap_atom::<L>(&mut a);
+    let extra = a.new_atom(&[0x42]).unwrap();
+    let n: usize = kani::any();
+    kani::assume(n <= 2);
+    let term = if kani::any() { NodePtr::NIL } else { extra };
+    let l2 = a.new_pair(extra, term).unwrap();
+    let l1 = a.new_pair(n0, if n >= 2 { l2 } else { term }).unwrap();
+    let list = if n >= 1 { l1 } else { term };
     let fl: u32 = kani::any();
-    let r = parse_args(&a, args.list, 90, ConsensusFlags::from_bits_retain(fl));
-    let e0 = ents[args.pick[0]];
-    let class = if e0.is_pair { UintClass::Invalid } else { classify_uint(&e0.bytes[..e0.len], 4) };
+    let r = parse_args(&a, list, 90, ConsensusFlags::from_bits_retain(fl));
+    let class = classify_uint(&b0, 4);
     let mut cost = 0u64;
     let want_err = if fl & NO_UNKNOWN != 0 {
         Some(ErrorCode::InvalidConditionOpcode)
-    } else if args.n == 0 {
+    } else if n == 0 {
         Some(ErrorCode::InvalidCondition)
     } else {
         match class {
@@ -603,19 +624,21 @@ harness!(c01_args_softfork, 40, {
         }
         Err(e) => assert!(Some(e.error_code()) == want_err),
     }
-    kani::cover!(want_err.is_none() && cost == 0xffff_ffffu64 * 10000);
-    kani::cover!(want_err == Some(ErrorCode::InvalidSoftforkCost) && matches!(class, UintClass::Pos));
+    kani::cover!(want_err.is_none() || L > 5);
+    kani::cover!(want_err == Some(ErrorCode::InvalidSoftforkCost) || L == 0);
     kani::cover!(want_err == Some(ErrorCode::InvalidConditionOpcode));
     std::mem::forget(a);
-});
+}
+harness!(c01_args_softfork_l5, 40, { softfork_args::<5>() });
+harness!(c01t_args_softfork_l0, 40, { softfork_args::<0>() });
+harness!(c01t_args_softfork_l4, 40, { softfork_args::<4>() });
+harness!(c01t_args_softfork_l6, 40, { softfork_args::<6>() });
 
-harness!(c01_args_two_byte_opcode, 40, {
+fn two_byte_opcode(op: u16) {
     let mut a = Allocator::new();
     let (menu, _ents) = hash_menu(&mut a);
     let args = build_args(&mut a, &menu, 2);
     let fl: u32 = kani::any();
-    let op: u16 = kani::any();
-    kani::assume(op >= 256);
     let r = parse_args(&a, args.list, op, ConsensusFlags::from_bits_retain(fl));
     if fl & NO_UNKNOWN != 0 {
         assert!(matches!(r, Err(e) if e.error_code() == ErrorCode::InvalidConditionOpcode));
@@ -627,9 +650,14 @@ harness!(c01_args_two_byte_opcode, 40, {
         }
         std::mem::forget(c);
     }
-    kani::cover!(fl & NO_UNKNOWN == 0 && op == 0xffff);
+    kani::cover!(fl & NO_UNKNOWN == 0);
     std::mem::forget(a);
-});
+}
+// (the table itself is checked for every opcode by c04_unknown_condition_cost_table)
+harness!(c01_args_two_byte_opcode_0100, 40, { two_byte_opcode(0x0100) });
+harness!(c01_args_two_byte_opcode_01ff, 40, { two_byte_opcode(0x01ff) });
+harness!(c01_args_two_byte_opcode_8033, 40, { two_byte_opcode(0x8033) });
+harness!(c01_args_two_byte_opcode_ffff, 40, { two_byte_opcode(0xffff) });
 
 harness!(c01_args_assert_ephemeral, 40, {
     let mut a = Allocator::new();
@@ -662,13 +690,18 @@ harness!(c01_args_remark, 40, {
 });
 
 harness!(c01_args_unlisted_opcode, 40, {
-    // parse_args on a one-byte opcode outside the whitelist
+    // parse_args on one-byte opcodes just outside every whitelisted range
     let mut a = Allocator::new();
     let (menu, _ents) = hash_menu(&mut a);
     let args = build_args(&mut a, &menu, 1);
-    let op: u16 = kani::any();
-    kani::assume(op < 256 && !known_one_byte(op as u8));
-    let r = parse_args(&a, args.list, op, ConsensusFlags::from_bits_retain(kani::any()));
-    assert!(matches!(r, Err(e) if e.error_code() == ErrorCode::InvalidConditionOpcode));
+    let fl: u32 = kani::any();
+    let ops: [u16; 13] = [0, 2, 42, 53, 59, 68, 69, 77, 79, 88, 89, 91, 255];
+    let mut i = 0;
+    while i < 13 {
+        assert!(!known_one_byte(ops[i] as u8));
+        let r = parse_args(&a, args.list, ops[i], ConsensusFlags::from_bits_retain(fl));
+        assert!(matches!(r, Err(e) if e.error_code() == ErrorCode::InvalidConditionOpcode));
+        i += 1;
+    }
     std::mem::forget(a);
 });
